@@ -190,7 +190,7 @@ pub fn eval(ctx: &Ctx, c: &Case, strace: bool) -> Verdict {
             if touches && !line.contains("/dev/null") { problems.push(("mutating-system-call".to_string(), format!("strace: {}", line.chars().take(200).collect::<String>()))); break; }
         }
     }
-    let state_changing = c.ops.iter().any(|o| matches!(o, Op::Method { method, target, .. } if (*method as usize % METHODS.len()) < 4 && pick_idx(*target, 4 + tree.files.len() + tree.dirs.len()) < tree.files.len()) || matches!(o, Op::Upload { .. } | Op::FormPath { .. }));
+    let state_changing = c.ops.iter().any(|o| matches!(o, Op::Method { method, target, .. } if (*method as usize % METHODS.len()) < 4 && pick_idx(*target, 4 + tree.files.len() + tree.dirs.len() + tree.files.iter().filter(|f| f.url.ends_with(".html") && !f.url.ends_with("/.html")).count()) < tree.files.len()) || matches!(o, Op::Upload { .. } | Op::FormPath { .. }));
     let mut classes = vec![if c.net { "network-route" } else { "in-process-route" }];
     if c.ops.iter().any(|o| matches!(o, Op::Upload { .. })) { classes.push("multipart-upload-naming-a-tree-file"); }
     if state_changing { classes.push("state-changing-method-on-existing-file"); }
